@@ -1,0 +1,36 @@
+//go:build verif
+
+package ttlv
+
+import "reflect"
+
+// This file is only compiled with the "verif" build tag. It exposes read-only
+// views of the type-keyed registries to the external verification harness.
+// It adds no behaviour to the library.
+
+// VerifEnumTypes returns a copy of the enum type -> enumeration tag registry.
+func VerifEnumTypes() map[reflect.Type]int {
+	out := make(map[reflect.Type]int, len(enums))
+	for k, v := range enums {
+		out[k] = v
+	}
+	return out
+}
+
+// VerifBitmaskTypes returns a copy of the bitmask type -> bitmask tag registry.
+func VerifBitmaskTypes() map[reflect.Type]int {
+	out := make(map[reflect.Type]int, len(bitmasks))
+	for k, v := range bitmasks {
+		out[k] = v
+	}
+	return out
+}
+
+// VerifTagByType returns a copy of the type -> default tag registry.
+func VerifTagByType() map[reflect.Type]int {
+	out := make(map[reflect.Type]int, len(tagByType))
+	for k, v := range tagByType {
+		out[k] = v
+	}
+	return out
+}
